@@ -165,6 +165,9 @@ fn ctl_programs() -> usize {
         ("o = map_values([1, 2]) -> |v| { return 7 }\no", Ok("[7, 7]")),
         ("o = for_each([1, 2]) -> |_i, v| { abort }\no", Err("ABORT")),
         ("abort \"stop\"\n.", Err("ABORT:stop")),
+        ("x, x.e = to_int(\"zz\")\nis_string(x.e)", Ok("true")),
+        (".p, .p.e = to_int(\"zz\")\nis_string(.p.e)", Ok("true")),
+        ("x, e = to_int(\"zz\")\n[x, is_string(e)]", Ok("[0, true]")),
         ("_, err = to_int({ abort })\n.after = true\n.", Err("ABORT")),
         ("_, err = to_int({ abort \"why\" })\n.after = true\n.", Err("ABORT:why")),
         ("ok, _ = to_int({ abort })\n.after = true\n.", Err("ABORT")),
@@ -230,6 +233,33 @@ fn read_only() -> usize {
         (OwnedValuePath::from(vec![OwnedSegment::field("a"), OwnedSegment::field("b")]), false, ".a.c = 9", r#"{"a":{"b":1}}"#),
     ];
     let mut bad = 0;
+    // several entries, registered in order; the LAST one is the location that must stay unchanged
+    let f = |names: &[&str]| OwnedValuePath::from(names.iter().map(|n| OwnedSegment::field(n)).collect::<Vec<_>>());
+    let multi: Vec<(Vec<(OwnedValuePath, bool)>, &str, &str)> = vec![
+        (vec![(f(&["tags", "host"]), false), (f(&["tags"]), true)], ".tags.env = \"prod\"", r#"{"tags":{"host":"h","env":"dev"}}"#),
+        (vec![(f(&["tags", "host"]), false), (f(&["tags"]), true)], "del(.tags.env)", r#"{"tags":{"host":"h","env":"dev"}}"#),
+        (vec![(f(&["tags"]), false), (f(&["tags"]), true)], ".tags.env = \"prod\"", r#"{"tags":{"host":"h","env":"dev"}}"#),
+        (vec![(f(&["tags"]), true), (f(&["tags", "host"]), false)], ".tags.host = \"x\"", r#"{"tags":{"host":"h","env":"dev"}}"#),
+        (vec![(f(&["a"]), true), (f(&["b"]), true)], ".b.c = 1", r#"{"a":{},"b":{"c":0}}"#),
+    ];
+    for (entries, src, event) in multi {
+        let mut config = CompileConfig::default();
+        for (p, r) in &entries { config.set_read_only_path(OwnedTargetPath::event(p.clone()), *r); }
+        let fns = vrl::stdlib::all();
+        let (ro, recursive) = entries.last().unwrap().clone();
+        let case = format!("read-only entries {:?} (in this order) program `{}` event {}", entries.iter().map(|(p, r)| format!("{}{}", p, if *r { " recursive" } else { "" })).collect::<Vec<_>>(), src, event);
+        let Ok(res) = compile_with_external(src, &fns, &ExternalEnv::default(), config) else { continue };
+        let before = ev(event);
+        let want = before.get(&ro).cloned();
+        let mut target = TargetValue { value: before, metadata: Value::Object(BTreeMap::new()), secrets: Secrets::default() };
+        let mut rt = Runtime::default();
+        let _ = rt.resolve(&mut target, &res.program, &TimeZone::default());
+        let got = target.value.get(&ro).cloned();
+        if got != want && recursive {
+            bad += 1;
+            fail("read_only", &case, &format!("value at read-only path stays {:?}", want), &format!("{:?}", got));
+        }
+    }
     for (ro, recursive, src, event) in cases {
         let mut config = CompileConfig::default();
         config.set_read_only_path(OwnedTargetPath::event(ro.clone()), recursive);
@@ -278,6 +308,86 @@ fn constants() -> usize {
     bad
 }
 
+/// A target that rejects chosen operations on one path (everything else is delegated).
+#[derive(Debug)]
+struct Faulty {
+    inner: TargetValue,
+    fail_get: bool,
+    fail_insert: bool,
+    fail_remove: bool,
+    fail_root: bool,
+}
+impl vrl::compiler::SecretTarget for Faulty {
+    fn get_secret(&self, key: &str) -> Option<&str> { self.inner.get_secret(key) }
+    fn insert_secret(&mut self, key: &str, value: &str) { self.inner.insert_secret(key, value) }
+    fn remove_secret(&mut self, key: &str) { self.inner.remove_secret(key) }
+}
+impl vrl::compiler::Target for Faulty {
+    fn target_insert(&mut self, path: &vrl::path::OwnedTargetPath, value: Value) -> Result<(), String> {
+        if self.fail_insert { return Err("rejected".into()); }
+        self.inner.target_insert(path, value)
+    }
+    fn target_get(&self, path: &vrl::path::OwnedTargetPath) -> Result<Option<&Value>, String> {
+        if path.path.is_root() { if self.fail_root { return Err("rejected".into()); } return self.inner.target_get(path); }
+        if self.fail_get { return Err("rejected".into()); }
+        self.inner.target_get(path)
+    }
+    fn target_get_mut(&mut self, path: &vrl::path::OwnedTargetPath) -> Result<Option<&mut Value>, String> {
+        if self.fail_get && !path.path.is_root() { return Err("rejected".into()); }
+        self.inner.target_get_mut(path)
+    }
+    fn target_remove(&mut self, path: &vrl::path::OwnedTargetPath, compact: bool) -> Result<Option<Value>, String> {
+        if self.fail_remove { return Err("rejected".into()); }
+        self.inner.target_remove(path, compact)
+    }
+}
+
+/// target faults: (program, which op fails, expected result, event must be unchanged?)
+fn target_faults() -> usize {
+    let ev = |json: &str| -> Value { serde_json::from_str::<serde_json::Value>(json).map(Value::from).unwrap() };
+    // (program, fail_get, fail_insert, fail_remove, fail_root, expected Ok(result) / Err(prefix), event unchanged)
+    let cases: Vec<(&str, bool, bool, bool, bool, Result<&str, &str>, bool)> = vec![
+        (".foo", true, false, false, false, Ok("null"), true),
+        ("exists(.foo)", true, false, false, false, Ok("false"), true),
+        ("if exists(.foo) { \"present\" } else { \"missing\" }", true, false, false, false, Ok("\"missing\""), true),
+        ("exists(.foo)", false, false, false, false, Ok("true"), true),
+        (".foo = 2\n.foo", false, true, false, false, Ok("1"), true),
+        ("x = (.foo = 2)\nx", false, true, false, false, Ok("2"), true),
+        ("del(.foo)", false, false, true, false, Ok("null"), true),
+        ("del(.foo)", false, false, false, false, Ok("1"), false),
+        (".bar = .foo\n.bar", true, false, false, false, Ok("null"), false),
+        (".foo", false, false, false, true, Err("ERROR"), true),
+        ("abort", false, false, false, true, Err("ERROR"), true),
+    ];
+    let mut bad = 0;
+    for (src, fg, fi, fr, froot, want, unchanged) in cases {
+        let fns = vrl::stdlib::all();
+        let Ok(res) = compile(src, &fns) else { bad += 1; fail("target_faults", src, "compiles", "compile error"); continue };
+        let before = ev(r#"{"foo": 1}"#);
+        let mut t = Faulty { inner: TargetValue { value: before.clone(), metadata: Value::Object(BTreeMap::new()), secrets: Secrets::default() },
+                             fail_get: fg, fail_insert: fi, fail_remove: fr, fail_root: froot };
+        let mut rt = Runtime::default();
+        let got = std::panic::catch_unwind(std::panic::AssertUnwindSafe(|| rt.resolve(&mut t, &res.program, &TimeZone::default())));
+        let case = format!("program `{}` on {{\"foo\": 1}} with target rejecting get={} insert={} remove={} root={}", src, fg, fi, fr, froot);
+        let ok = match (&got, &want) {
+            (Ok(Ok(v)), Ok(w)) => v.to_string() == *w,
+            (Ok(Err(Terminate::Error(_))), Err(w)) => *w == "ERROR",
+            (Ok(Err(Terminate::Abort(_))), Err(w)) => *w == "ABORT",
+            _ => false,
+        };
+        if !ok {
+            bad += 1;
+            let g = match &got { Ok(Ok(v)) => format!("Ok({v})"), Ok(Err(e)) => format!("Err({e:?})"), Err(_) => "PANIC".to_string() };
+            fail("target_faults", &case, &format!("{:?}", want), &g);
+        }
+        if unchanged && t.inner.value != before {
+            bad += 1;
+            fail("target_faults", &case, "event unchanged", &t.inner.value.to_string());
+        }
+    }
+    bad
+}
+
 fn main() {
     let unit = std::env::args().nth(1).unwrap_or_default();
     let bad = match unit.as_str() {
@@ -287,6 +397,7 @@ fn main() {
         "format_int" => format_int(),
         "read_only" => read_only(),
         "constants" => constants(),
+        "target_faults" => target_faults(),
         _ => {
             eprintln!("unknown witness unit {unit}");
             std::process::exit(2);
